@@ -180,6 +180,7 @@ func main() {
 	out := flag.String("out", "", "output directory")
 	replay := flag.String("replay", "", "replay a single case line (TAB separated) and print observations")
 	trace := flag.String("trace", "", "write every case to this file before executing it (to find the input of a fatal crash)")
+	replayFile := flag.String("replayfile", "", "replay every case line of this file; prints \"CASE <n>\" before executing line n (used by the instruction-set probe)")
 	flag.Parse()
 
 	if *trace != "" {
@@ -192,6 +193,18 @@ func main() {
 	}
 	if *replay != "" {
 		doReplay(*replay)
+		return
+	}
+	if *replayFile != "" {
+		data, err := os.ReadFile(*replayFile)
+		if err != nil {
+			fmt.Fprintln(os.Stderr, err)
+			os.Exit(2)
+		}
+		for i, line := range strings.Split(strings.TrimRight(string(data), "\n"), "\n") {
+			fmt.Printf("CASE %d\n", i)
+			doReplay(line)
+		}
 		return
 	}
 	f, ok := props[*prop]
